@@ -3,11 +3,14 @@ SPEC = dict(
     title='External commands cannot hang or crash fan2go',
     props_file='Props/C19.v', props_mod='Props.C19',
     props_extra=[('Props/C19Link.v', 'Props.C19Link')],
-    proof_files=['Proofs/ExecCmd.v', 'Proofs/ExecShape.v', 'Proofs/ExecPerm.v', 'Proofs/ExecLinks.v', 'Drv/Exec.v'],
+    proof_files=['Proofs/ExecCmd.v', 'Proofs/ExecShape.v', 'Proofs/ExecPerm.v', 'Proofs/ExecLinks.v', 'Drv/Exec.v', 'Drv/ExecHist.v'],
     tie_vo=['Proofs/ExecShape.vo', 'Proofs/ConstsTie_delays.vo', 'Proofs/LeafTie2_CheckFilePermissions.vo'],
     drivers=[dict(name='exec', drv_mod='Drv.Exec', drv_file='Drv/Exec.v', shard=200,
                   args={'quick': ['reps=1', 'long=3000'], 'thorough': ['reps=6', 'long=6000']},
-                  timeout={'quick': 300, 'thorough': 1500})],
+                  timeout={'quick': 300, 'thorough': 1500}),
+             dict(name='exechist', drv_mod='Drv.ExecHist', drv_file='Drv/ExecHist.v', shard=50,
+                  args={'quick': ['long=3000'], 'thorough': ['long=4000']},
+                  timeout={'quick': 300, 'thorough': 900})],
     # same rewrite as C18: os.Stat(file) in CheckFilePermissionsForExecution -> util.VerifStat, which lets the driver
     # play "another process changes the file between EvalSymlinks, Stat and the start" deterministically
     rewrites=[('internal/util/file.go', [(r'\bos\.Stat\(file\)', 'VerifStat(file)')], None)],
@@ -28,6 +31,15 @@ SPEC = dict(
          'watchdog (3 x timeout + longest sleep + 3 s) and a call still blocked then - or a CmdSensor whose SetMovingAvg/GetMovingAvg '
          'block after GetValue - is recorded as a hang. Non-trivial = anything but "exit 0 with output"; '
          'distinct = distinct (api, kind, status, signal, timeout, held descriptors, output, observed class).',
+    rule_exechist='driver exechist - the persistently hanging command: ONE executable is called again and again with timeouts of '
+         '0.2-0.5 s at offsets 0 / 0.6 / 1.5 / 3.5 / 6.5 / 10.3 / 11 s (so: a timeout, more timeouts within ten seconds, and '
+         'again after more than ten seconds) while another goroutine logs through internal/ui every 50 ms; every call has its '
+         'own watchdog and is followed by a logger probe, a call that never returns or a logger silent for more than a second '
+         'is recorded as a hang and ends the history. The quick tier runs this ~11.5 s history for one executable only (exec '
+         'sleep); the thorough tier adds 15-call histories over 24 s for a shell waiting for a child, a lingering grandchild, a '
+         'TERM-ignoring sleeper and an executable that alternates between timing out and succeeding, and 7-call histories '
+         'through CmdFan.GetPwm and CmdSensor.GetValue with the 2 s constant (the sixth consecutive timeout lies beyond 10 s). '
+         'Every single-call case of driver exec is also followed by a logger probe.',
     assumptions=[
         'os/exec model (cmd_output): SIGKILL at the context deadline ends the child at once; its descendants are not killed; '
         'Wait blocks on the stdout/stderr copying goroutines until every holder closed the pipes; with cmd.WaitDelay = d > 0 it '
@@ -62,3 +74,4 @@ SPEC = dict(
     level_note='trusted: Coq kernel; model of os/exec semantics (named assumptions); regex translator for the wait delay; wall clock measured, not proved',
     design_ref='DESIGN.md section 5 C19',
 )
+SPEC['rule'] = SPEC['rule'] + ' ' + SPEC.pop('rule_exechist')
